@@ -1,5 +1,159 @@
-import AlgoVerif.Model.C10
-/-! # C10 — property theorems (under construction) -/
+import AlgoVerif.Proofs.C10Main
+import AlgoVerif.Proofs.C10Term
+/-!
+# C10 — FIRST, FOLLOW and nullable are exact; the LL(1) verdict matches the predictive table
+
+Model: `Model/C10.lean` (the three fixpoint loops of `grammar/cfg.go` with their `updated` logic, the
+FIRST closure for strings, `IsLL1`'s pairwise conditions, the cells of `predictive.BuildParsingTable`).
+Spec: `Spec/C10.lean` (`Derives` of `Model/GrammarCore.lean`; sentential forms).
+
+Every statement is for ALL grammars (`T`, `N` arbitrary types with decidable equality), ALL symbol
+strings, and EVERY iteration order: `IterOrder.Fair` only asks that each `range` over a table or set
+visits every element (in any order, which may differ from pass to pass and from head to head).
+The hypotheses `… = .ok r` say that the loop returned; `C10_fixpoints_terminate` shows that on every
+grammar that passes `Verify()` they do (the Model's `fixFuel g` passes always suffice, i.e. the Go loops
+terminate), so the hypotheses are never vacuous.
+
+Proof pattern (helper lemmas in `Proofs/C10*.lean`): the returned family is *closed* under the rules
+because the last pass changed nothing, and *below every closed family* because each step only adds what
+the rules force; the Spec's family is closed (by building derivations) and below every closed family (by
+induction on the length of a derivation).
+-/
 open AlgoVerif AlgoVerif.Gram AlgoVerif.C10
 
-theorem C10_placeholder : (union [1, 2] [2, 3] : List Nat) = [1, 2, 3] := by decide
+section
+variable {T N : Type} [DecidableEq T] [DecidableEq N]
+
+/-- `NullableNonTerminals` returns exactly the non-terminals that derive ε. -/
+theorem C10_nullable_exact (g : Grammar T N) (o : IterOrder T N) (ho : o.Fair) (R : List N)
+    (h : nullable g o = .ok R) (A : N) : A ∈ R ↔ Spec.Nullable g A :=
+  nullable_exact ho h A
+
+/-- `FIRST(α)` holds exactly the terminals that can begin a sentential form derived from `α`, and the
+empty marker iff `α ⇒* ε`. -/
+theorem C10_first_exact (g : Grammar T N) (o : IterOrder T N) (ho : o.Fair) (fi : N → TE T)
+    (h : computeFirst g o = .ok fi) (α : List (Sym T N)) :
+    (∀ a, a ∈ (firstStr fi α).terms ↔ Spec.First g α a) ∧ ((firstStr fi α).eps = true ↔ Spec.Eps g α) :=
+  ⟨fun a => first_exact_terms ho h α a, first_exact_eps ho h α⟩
+
+/-- When every non-terminal is reachable, `FOLLOW(A)` holds exactly the terminals that can appear
+immediately after `A` in a sentential form derived from the start symbol, and the endmarker iff `A` can
+end one. -/
+theorem C10_follow_exact (g : Grammar T N) (o₁ o₂ : IterOrder T N) (h₁ : o₁.Fair) (h₂ : o₂.Fair)
+    (hv : validB g = true) (hreach : Spec.AllReachable g) (an : Analysis T N)
+    (h : analyse g o₁ o₂ = .ok an) (A : N) :
+    (∀ a, a ∈ (an.follow A).terms ↔ Spec.Follow g A a) ∧
+    ((an.follow A).endm = true ↔ Spec.FollowEnd g A) :=
+  follow_exact h₁ h₂ hv hreach h A
+
+/-- Without any reachability assumption FOLLOW is still complete: whatever follows `A` in a sentential
+form is in the set (the converse needs `A`'s occurrences to be reachable). -/
+theorem C10_follow_complete (g : Grammar T N) (o₁ o₂ : IterOrder T N) (h₁ : o₁.Fair) (h₂ : o₂.Fair)
+    (an : Analysis T N) (h : analyse g o₁ o₂ = .ok an) (A : N) :
+    (∀ a, Spec.Follow g A a → a ∈ (an.follow A).terms) ∧ (Spec.FollowEnd g A → (an.follow A).endm = true) :=
+  follow_complete h₁ h₂ h A
+
+/-- The sets do not depend on the iteration order: two runs agree on every FIRST(α) and FOLLOW(A). -/
+theorem C10_order_irrelevant (g : Grammar T N) (o₁ o₂ o₃ o₄ : IterOrder T N)
+    (h₁ : o₁.Fair) (h₂ : o₂.Fair) (h₃ : o₃.Fair) (h₄ : o₄.Fair) (an an' : Analysis T N)
+    (h : analyse g o₁ o₂ = .ok an) (h' : analyse g o₃ o₄ = .ok an') :
+    SameSets (firstStr an.first) (firstStr an'.first) an.follow an'.follow :=
+  analyse_sameSets h₁ h₂ h₃ h₄ h h'
+
+/-- The three "until nothing changed" loops return, for every grammar that passes `Verify()` and every
+iteration order: a pass that reports `updated` adds a member to one of `|N|` sets of terminals or raises
+one of `|N|` flags, and nothing is ever removed. -/
+theorem C10_fixpoints_terminate (g : Grammar T N) (hv : validB g = true) (o₁ o₂ : IterOrder T N)
+    (h₁ : o₁.Fair) (h₂ : o₂.Fair) :
+    (∃ R, nullable g o₁ = .ok R) ∧ (∃ an, analyse g o₁ o₂ = .ok an) :=
+  ⟨nullable_terminates hv h₁, analyse_terminates hv h₁ h₂⟩
+
+/-- A conflict in the predictive parsing table (built from one run of FIRST/FOLLOW) always comes with an
+`IsLL1` error (which runs FIRST/FOLLOW again, in another order). -/
+theorem C10_conflict_implies_ll1_error (g : Grammar T N) (hnd : g.prods.Nodup)
+    (o₁ o₂ o₃ o₄ : IterOrder T N) (h₁ : o₁.Fair) (h₂ : o₂.Fair) (h₃ : o₃.Fair) (h₄ : o₄.Fair)
+    (anT anL : Analysis T N) (hT : analyse g o₁ o₂ = .ok anT) (hL : analyse g o₃ o₄ = .ok anL)
+    (hc : conflicts g (firstStr anT.first) anT.follow ≠ []) :
+    ll1Errors g (firstStr anL.first) anL.follow ≠ [] := by
+  have s := analyse_sameSets h₁ h₂ h₃ h₄ hT hL
+  exact (ll1Errors_ne_nil_iff hnd).2 (s.ll1Bad.1 (conflict_ll1Bad ((conflicts_ne_nil_iff hnd).1 hc)))
+
+/-- For grammars whose non-terminals are all reachable and productive, `IsLL1` reports no error exactly
+when the table has at most one production per cell. -/
+theorem C10_ll1_iff_conflict_free (g : Grammar T N) (hv : validB g = true) (hnd : g.prods.Nodup)
+    (hreach : Spec.AllReachable g) (hprod : Spec.AllProductive g)
+    (o₁ o₂ o₃ o₄ : IterOrder T N) (h₁ : o₁.Fair) (h₂ : o₂.Fair) (h₃ : o₃.Fair) (h₄ : o₄.Fair)
+    (anT anL : Analysis T N) (hT : analyse g o₁ o₂ = .ok anT) (hL : analyse g o₃ o₄ = .ok anL) :
+    ll1Errors g (firstStr anL.first) anL.follow = [] ↔ conflicts g (firstStr anT.first) anT.follow = [] := by
+  have s := analyse_sameSets h₁ h₂ h₃ h₄ hT hL
+  constructor
+  · intro hl
+    apply Classical.byContradiction
+    intro hc
+    exact C10_conflict_implies_ll1_error g hnd o₁ o₂ o₃ o₄ h₁ h₂ h₃ h₄ anT anL hT hL hc hl
+  · intro hc
+    apply Classical.byContradiction
+    intro hl
+    have hbad := s.ll1Bad.2 ((ll1Errors_ne_nil_iff hnd).1 hl)
+    exact (conflicts_ne_nil_iff hnd).2 (ll1Bad_conflict h₁ h₂ hv hreach hprod hT hbad) hc
+
+end
+
+/-! ## the hypotheses are satisfiable on a non-trivial grammar
+
+`S → a A b`, `A → ε | a A | B`, `B → A` (an ε-chain with a unit cycle), terminals `0 = a`, `1 = b`,
+non-terminals `0 = S`, `1 = A`, `2 = B`. -/
+
+def C10ex : Grammar Nat Nat :=
+  { terms := [0, 1], nonterms := [0, 1, 2], start := 0,
+    prods := [⟨0, [.term 0, .nonterm 1, .term 1]⟩, ⟨1, []⟩, ⟨1, [.term 0, .nonterm 1]⟩,
+              ⟨1, [.nonterm 2]⟩, ⟨2, [.nonterm 1]⟩] }
+
+/-- an order that reverses every list, differently from the canonical one -/
+def C10revOrder : IterOrder Nat Nat := ⟨fun _ l => l.reverse, fun _ l => l.reverse⟩
+
+example : (IterOrder.canon : IterOrder Nat Nat).Fair := ⟨fun _ _ _ => Iff.rfl, fun _ _ _ => Iff.rfl⟩
+example : C10revOrder.Fair := ⟨fun _ _ _ => List.mem_reverse, fun _ _ _ => List.mem_reverse⟩
+
+example : nullable C10ex IterOrder.canon = .ok [1, 2] := by decide
+example : nullable C10ex C10revOrder = .ok [1, 2] := by decide
+example : validB C10ex = true := by decide
+example : C10ex.prods.Nodup := by decide
+
+example : ∃ an, analyse C10ex IterOrder.canon C10revOrder = .ok an ∧
+    (firstStr an.first [.nonterm 1, .term 1]).terms = [0, 1] ∧ (firstStr an.first [.nonterm 2]).eps = true ∧
+    (an.follow 2).terms = [1] ∧ (an.follow 0).endm = true ∧
+    ll1Errors C10ex (firstStr an.first) an.follow ≠ [] ∧
+    conflicts C10ex (firstStr an.first) an.follow ≠ [] := by
+  refine ⟨_, rfl, ?_, ?_, ?_, ?_, ?_, ?_⟩ <;> decide
+
+example : Spec.AllReachable C10ex := by
+  intro A hA
+  have hS : C10ex.start = 0 := rfl
+  have step1 : Derives C10ex [Sym.nonterm 0] [.term 0, .nonterm 1, .term 1] :=
+    Derives.of_prod (p := ⟨0, [.term 0, .nonterm 1, .term 1]⟩) (by decide)
+  have step2 : Derives C10ex [Sym.nonterm 1] [.nonterm 2] :=
+    Derives.of_prod (p := ⟨1, [.nonterm 2]⟩) (by decide)
+  simp [C10ex] at hA
+  rcases hA with rfl | rfl | rfl
+  · exact ⟨[], [], Derives.refl _⟩
+  · exact ⟨[.term 0], [.term 1], step1⟩
+  · refine ⟨[.term 0], [.term 1], step1.trans ?_⟩
+    have := (step2.append_left [Sym.term 0]).append_right [Sym.term 1]
+    simpa using this
+
+example : Spec.AllProductive C10ex := by
+  have hA : Derives C10ex [Sym.nonterm 1] [] := Derives.of_prod (p := ⟨1, []⟩) (by decide)
+  have hB : Derives C10ex [Sym.nonterm 2] [] :=
+    (Derives.of_prod (p := ⟨2, [.nonterm 1]⟩) (by decide)).trans hA
+  have hS : Derives C10ex [Sym.nonterm 0] [.term 0, .term 1] := by
+    refine (Derives.of_prod (p := ⟨0, [.term 0, .nonterm 1, .term 1]⟩) (by decide)).trans ?_
+    have := (hA.append_left [Sym.term 0]).append_right [Sym.term 1]
+    simpa using this
+  intro A hA'
+  simp [C10ex] at hA'
+  rcases hA' with rfl | rfl | rfl
+  · exact ⟨[0, 1], hS⟩
+  · exact ⟨[], hA⟩
+  · exact ⟨[], hB⟩
+
